@@ -124,6 +124,10 @@ func (x *X) summariseLoop(fr *frame, order []*ssa.BasicBlock, li *loopInfo) {
 	x.sc.n++
 	k := fmt.Sprintf("k!%d", x.sc.n)
 	x.sc.paramName = k
+	class := fmt.Sprintf("%s/%d", FuncName(fr.fn), h.Index)
+	saveClass := x.curClass
+	x.curClass = class
+	defer func() { x.curClass = saveClass }()
 	writtenBefore := len(x.written)
 	heapBefore := map[string]string{}
 	for key, t := range entry.heap {
@@ -178,13 +182,14 @@ func (x *X) summariseLoop(fr *frame, order []*ssa.BasicBlock, li *loopInfo) {
 	// contName is "(cont!N k)" or a constant
 	w := x.sc.Fresh("w", SInt)
 	x.witnesses = append(x.witnesses, w)
+	x.witClass[w] = class
 	atW := func(s string) string { return replaceTok(s, k, w) }
 	x.sc.Assert(implies(entry.cond, fmt.Sprintf("(<= %s %s)", lo, w)))
 	x.sc.Assert(implies(entry.cond, not(atW(contName))))
 	if contName != "true" && contName != "false" {
 		fnName := contName[1 : len(contName)-len(k)-2]
-		x.sc.Assert(implies(entry.cond, fmt.Sprintf("(forall ((%s Int)) (=> (and (<= %s %s) (< %s %s)) %s))", k, lo, k, k, w, contName)))
-		x.quants = append(x.quants, quant{guard: entry.cond, fn: fnName, lo: lo, hi: w})
+		x.sc.add("(assert " + implies(entry.cond, fmt.Sprintf("(forall ((%s Int)) (=> (and (<= %s %s) (< %s %s)) %s))", k, lo, k, k, w, contName)) + ") ;@inst")
+		x.quants = append(x.quants, quant{guard: entry.cond, fn: fnName, lo: lo, hi: w, class: class})
 	}
 	// values defined in the loop are now the values of iteration w
 	for v, val := range fr.vals {
